@@ -551,6 +551,12 @@ def run(F, rep):
                         tags += enum_consts_in(cond)
                 rt = n.get('rt', '').replace('const ', '')
                 k = '%s|any_cast' % f.short
+                a0_ = nth_arg(n, 0)
+                while a0_ is not None and a0_.get('k') in ('Paren', 'Cast') and len(a0_.get('c', [])) == 1:
+                    a0_ = a0_['c'][0]
+                ptr_form = a0_ is not None and a0_.get('k') == 'Un' and a0_.get('op') == '&' and rt.rstrip().endswith('*')
+                if ptr_form:
+                    rt = rt.rstrip()[:-1].rstrip()     # any_cast<T>(&any) returns T* and does not throw: null when the held type differs
                 if not tags:
                     rep.fail('C15.A1', k, f.where(n), 'any_cast<%s> in %s is not under a tag test' % (rt, f.short))
                     continue
@@ -558,6 +564,15 @@ def run(F, rep):
                 rep.check(not badt, 'C15.A1', k, f.where(n), 'accessor %s casts to %s under tags %s but the setters store %s' % (
                     f.short, rt, tags, {t: stored.get(t) for t in badt}), 'tags %s all store %s' % (tags, rt))
                 # the cast is inside a handler for bad_any_cast
+                if ptr_form:
+                    from engines import nonnull_facts as _nnf
+                    holder = next((a for a in f.ancestors(n) if a.get('k') == 'Var'), None)
+                    derefs = [] if holder is None else [u for u in f.walk() if ((u.get('k') == 'Un' and u.get('op') == '*') or (u.get('k') == 'Member' and u.get('arrow'))) and u.get('c')
+                                                         and u['c'][0].get('k') == 'Ref' and u['c'][0].get('d') == holder.get('d')]
+                    okp = holder is not None and bool(derefs) and all(holder.get('n') in (_nnf(f, u) or set()) for u in derefs)
+                    rep.check(okp, 'C15.A1', k + '|handler', f.where(n), 'the pointer returned by any_cast<T>(&item) in %s is dereferenced without a null test (it is null when the stored type differs)' % f.short,
+                              'non-throwing pointer form, result tested before use')
+                    continue
                 tr = [a for a in f.ancestors(n) if a.get('k') == 'Try']
                 caught = [h.get('q') for t_ in tr for h in t_['c'][1:]]
                 rep.check(any(c in ('std::bad_any_cast', 'std::bad_cast', 'std::exception', '...') for c in caught), 'C15.A1', k + '|handler', f.where(n),
